@@ -42,6 +42,7 @@ F_ADDR = "C08-decoder-second-addr-other-slave"
 F_WDATA = "C08-decoder-w-before-aw"
 F_GAP = "C08-arbiter-w-then-idle-gap"
 F_ID = "C08-axi-interconnect-id-truncated"
+F_SAT = c08lib.F_SAT
 
 # address maps on a 2-bit byte address, 8-bit data (word address = byte address)
 MAPS = {
@@ -83,7 +84,7 @@ class _Deadline:
 def _checked(mk, seed):
     """Build the instance and tie its compiled evaluator to the repository's Evaluator before using it."""
     def make():
-        inst = mk()
+        inst = c08lib.arm(mk())      # histories with >= 256 unanswered requests are classified under the open finding
         bad = inst.crosscheck(random.Random(seed), 120 if inst.n * inst.m <= 4 else 60)
         if bad:
             raise RuntimeError("compiled evaluator disagrees with litex.gen.sim.core.Evaluator on %s: %s" % (inst.name, bad))
@@ -514,7 +515,7 @@ def _corpus(ctx):
 
 
 def _replay(inst, trace, hyp=True):
-    mon = AxiMonitor(inst, hyp=hyp)
+    mon = c08lib.SatAwareMonitor(inst, hyp=hyp)
     n = inst.netlist
     root = n.snapshot()
     res = None
@@ -745,7 +746,7 @@ def search(ctx, disagreements, proof_info):
             if time.time() > deadline:
                 break
             try:
-                inst = mk()
+                inst = c08lib.arm(mk())
                 r = monitor_run(inst, rng, 1500 if rnd else 600)
             except Exception as e:          # a changed implementation may not even build / drive in this shape
                 ctx.cov.notes.append("search instance raised %r" % (e,))
@@ -865,6 +866,14 @@ def probes(ctx):
             msg = "finding %s (not yet listed in known_findings.json) %s: %s" % (fid, "reproduces" if still else "does not reproduce", what)
             ctx.cov.notes.append(msg)
             ctx.log("note: " + msg)
+    # counter saturation: 2x1 witness (256 accepted reads, 255 answered, grant moves, 256th response mis-delivered)
+    r = c08lib.probe_saturation()
+    still = any(f for f, _ in r)
+    what = "%d/%d witnesses reproduce; %s" % (sum(f for f, _ in r), len(r), next((w for f, w in r if f), r[0][1]))
+    if any(e.get("id") == F_SAT for e in ctx.known):
+        out.append((F_SAT, still, what))
+    else:
+        ctx.cov.notes.append("finding %s (not listed): %s" % (F_SAT, what))
     return out
 
 
